@@ -230,7 +230,29 @@ unsafe fn run(data: &[u8]) {
                         ctxs.push((riti_context_new_with_config(cfgs[ci].p), 0, cfgs[ci].ansi));
                     }
                 }
-                2 | 3 | 4 => {
+                4 => {
+                    // burst: the same key pressed 2..=97 times (long compositions: candidates and pre-edit texts of
+                    // several hundred bytes); every suggestion on the way is read out completely and freed, the last
+                    // one stays alive like any other
+                    let (x, k, m, n) = (c.next()?, c.next()?, c.next()?, c.next()?);
+                    if !ctxs.is_empty() {
+                        let xi = x as usize % ctxs.len();
+                        let code = keys[k as usize % keys.len()];
+                        let m = if code == VC_D { m & !2 } else { m };
+                        let presses = (n as usize % 96) + 2;
+                        for i in 0..presses {
+                            let s = riti_get_suggestion_for_key(ctxs[xi].0, code, m, 0);
+                            let (snap, cnt) = snapshot(s, &mut strings);
+                            ctxs[xi].1 = cnt;
+                            if i + 1 == presses {
+                                sugs.push(Sug { p: s, snap, choices: cnt });
+                            } else {
+                                riti_suggestion_free(s);
+                            }
+                        }
+                    }
+                }
+                2 | 3 => {
                     let (x, k, m, sel) = (c.next()?, c.next()?, c.next()?, c.next()?);
                     if !ctxs.is_empty() {
                         let xi = x as usize % ctxs.len();
